@@ -28,6 +28,7 @@ type slbOp struct {
 	B    int    `json:"b"`
 	D    int    `json:"d"`
 	Keep []int  `json:"keep"` // update: ids present in the new conf (nil = all)
+	T    int    `json:"t"`    // slowstart: slow_start_time in seconds; sleep: milliseconds
 }
 
 type slbCase struct {
@@ -189,9 +190,29 @@ func slbRun() {
 		}
 		vh.Emit(map[string]interface{}{"ev": "load", "cid": c.ID, "w": pad(w), "av": av})
 		nEvents++
+		ramping := false
+		effWeights := func() []int {
+			o := make([]int, TraceN)
+			for _, st := range obj.brr.VerifSnapshot() {
+				id, _ := strconv.Atoi(st.Name[1:])
+				o[id-1] = st.Weight
+			}
+			return o
+		}
 		for _, op := range c.Ops[1:] {
 			if obj.dead {
 				break
+			}
+			if op.Op == "sleep" {
+				time.Sleep(time.Duration(op.T) * time.Millisecond)
+				continue
+			}
+			if op.Op == "slowstart" {
+				// a backend brought back by the health check: weight ramps from 1 to its full value
+				obj.brr.SetSlowStart(op.T)
+				obj.backs[op.B].SetRestart(true)
+				ramping = true
+				continue
 			}
 			nEvents++
 			switch op.Op {
@@ -199,6 +220,27 @@ func slbRun() {
 				var key []byte
 				if op.Algo == "sticky" {
 					key = obj.stickyKey(op.R, rnd.Intn(1000))
+				}
+				if ramping {
+					before := effWeights()
+					id, detail := obj.pick(op.Algo, key)
+					after := effWeights()
+					lo, hi := make([]int, TraceN), make([]int, TraceN)
+					for i := range lo {
+						lo[i], hi[i] = before[i], after[i]
+						if after[i] < lo[i] {
+							lo[i] = after[i]
+						}
+						if before[i] > hi[i] {
+							hi[i] = before[i]
+						}
+					}
+					ev := map[string]interface{}{"ev": "pickw", "cid": c.ID, "algo": op.Algo, "b": id, "wlo": lo, "whi": hi}
+					if detail != "" && id < 0 {
+						ev["detail"] = detail
+					}
+					vh.Emit(ev)
+					continue
 				}
 				id, detail := obj.pick(op.Algo, key)
 				ev := map[string]interface{}{"ev": "pick", "cid": c.ID, "algo": op.Algo, "b": id}
